@@ -65,3 +65,186 @@ class EqualInformation(Contract):
     def post(self, vc, a, result):
         i, j = a["self"].f["args"]
         return [("iff-ranges-equal", zeq(result, range_equal(i, j)))]
+
+
+# --- evaluate_deltas: side conditions of the delta evaluation lemma -----------------------
+# Lemma (paper, TRUSTED): for a product  delta_{ab} * R  in which `a` is summed over its
+# range, is not a target index, and range(b) is a subset of range(a):
+#       sum_a delta_{ab} R(a, ...) = R(b, ...)
+# (an index restricted to the smaller range selects exactly one element of the larger
+# range).  The obligations below establish the premises at every substitution the real
+# function performs, for symbolic spaces / spins of all indices, with the target indices
+# either given or taken from the summation convention, and that recursive calls work with
+# the same target indices.
+from pyvc import contract as C
+from pyvc.values import PList, PSet, Unsupported
+from pyvc.vc import RaiseEx
+
+ED = "adcgen.func:evaluate_deltas"
+ASSUMPTIONS = [
+    "sympy: Mul.args lists the factors; obj.atoms(Index) is the set of indices of the object; "
+    "Mul.subs(a, b) replaces a by b in every factor, re-evaluating deltas (delta_bb = 1, "
+    "delta between disjoint ranges = 0)",
+    "get_symbols(list of Index) returns the list unchanged",
+]
+TRUSTED = ["delta evaluation lemma: sum_a delta_ab R(a) = R(b) for range(b) subset range(a), a not a target index"]
+
+
+def tensor_v(name, idx):
+    return Struct("TensorV", name=name, idx=tuple(idx))
+
+
+def obj_indices(o):
+    return list(o.f["args"]) if o.cls == "KroneckerDelta" else list(o.f["idx"])
+
+
+def _same(a, b):
+    return z3.eq(term(a), term(b))
+
+
+def _distinct_syms(items):
+    out = []
+    for s in items:
+        if not any(_same(s, o) for o in out):
+            out.append(s)
+    return out
+
+
+C.STRUCT_ATTR[("MulV", "args")] = lambda ip, o: tuple(o.f["factors"])
+C.STRUCT_ISINSTANCE["MulV"] = lambda ip, v, cls: str(getattr(cls, "dotted", getattr(cls, "key", ""))).endswith("Mul")
+C.STRUCT_ISINSTANCE["TensorV"] = lambda ip, v, cls: False
+C.STRUCT_METHODS[("KroneckerDelta", "atoms")] = lambda ip, o, a, k: PSet(_distinct_syms(obj_indices(o)))
+C.STRUCT_METHODS[("TensorV", "atoms")] = lambda ip, o, a, k: PSet(_distinct_syms(obj_indices(o)))
+
+
+def _pk_attr(ip, o):
+    con = C.REGISTRY[PreferredAndKillable.key]
+    i, j = o.f["args"]
+    return con.apply(ip.vc, {"self": o, "_i": i, "_j": j})
+
+
+def _eq_attr(ip, o):
+    return C.REGISTRY[EqualInformation.key].apply(ip.vc, {"self": o})
+
+
+C.STRUCT_ATTR[("KroneckerDelta", "preferred_and_killable")] = _pk_attr
+C.STRUCT_ATTR[("KroneckerDelta", "indices_contain_equal_information")] = _eq_attr
+
+
+def mulv_subs(ip, obj, args, kwargs):
+    """expr.subs(old, new): the premises of the lemma are obligations"""
+    vc = ip.vc
+    old, new = args[0], args[1]
+    st = vc.ghost["_ed"]
+    vc.check("subs#removed-index-is-not-a-target-index",
+             z3.And(*[term(old) != term(t) for t in st["targets"]]) if st["targets"] else True)
+    vc.check("subs#replacing-index-carries-at-least-as-much-information",
+             range_subset(new, old))
+    on_delta = [zor(zand(term(d.f["args"][0]) == term(old), term(d.f["args"][1]) == term(new)),
+                    zand(term(d.f["args"][1]) == term(old), term(d.f["args"][0]) == term(new)))
+                for d in obj.f["factors"] if d.cls == "KroneckerDelta"]
+    vc.check("subs#the-pair-is-linked-by-a-delta-of-the-term", zor(*on_delta) if on_delta else False)
+    out = []
+    for o in obj.f["factors"]:
+        idx = [new if _same(s, old) else s for s in obj_indices(o)]
+        if o.cls == "KroneckerDelta":
+            if _same(idx[0], idx[1]):
+                continue                    # delta_bb = 1
+            if vc.decide(range_disjoint(idx[0], idx[1])):
+                return 0                    # the term vanishes
+            out.append(delta_struct(idx[0], idx[1]))
+        else:
+            out.append(tensor_v(o.f["name"], idx))
+    st["substitutions"] = st.get("substitutions", 0) + 1
+    return Struct("MulV", factors=out)
+
+
+C.STRUCT_METHODS[("MulV", "subs")] = mulv_subs
+
+
+@register
+class GetSymbolsAssumed(Contract):
+    key = "adcgen.indices:get_symbols"
+    props = []
+    assumed = True
+    note = "a list of Index objects is returned unchanged"
+
+    def apply(self, vc, a):
+        v = a["indices"]
+        if isinstance(v, (PList, tuple)) or v == []:
+            return v
+        raise Unsupported("get_symbols of names")
+
+
+def einstein_targets(objs):
+    """indices that occur on exactly one object (summation convention)"""
+    syms = _distinct_syms([s for o in objs for s in obj_indices(o)])
+    return [s for s in syms if sum(1 for o in objs if any(_same(s, x) for x in obj_indices(o))) == 1]
+
+
+@register
+class EvaluateDeltas(Contract):
+    key = ED
+    props = ["C09"]
+    # index sharing patterns (distinct letters = distinct indices); d: delta, other: tensor
+    SHAPES = [
+        [("d", "xy"), ("X", "x"), ("Y", "y")],
+        [("d", "xy"), ("X", "xy")],
+        [("d", "xy"), ("X", "x")],
+        [("d", "tx"), ("d", "xy"), ("X", "x"), ("Y", "y")],
+        [("d", "xy"), ("d", "tx"), ("X", "x"), ("Y", "y")],
+        [("d", "tx"), ("d", "xy"), ("X", "xy")],
+        [("d", "xy"), ("d", "yz"), ("X", "x"), ("Z", "z")],
+        [("d", "xy"), ("d", "zw"), ("X", "xz"), ("Y", "yw")],
+        [("d", "xy"), ("d", "yz"), ("d", "zw"), ("X", "xw")],
+        [("X", "xy")],
+    ]
+    split_first_choice = len(SHAPES)
+
+    def setup(self, vc):
+        shape = self.SHAPES[vc.choose(len(self.SHAPES), "shape")]
+        letters = sorted({c for _k, nm in shape for c in nm})
+        idx = {c: new_index(vc, c) for c in letters}
+        if len(letters) > 1:
+            vc.assume(z3.Distinct(*[idx[c].t for c in letters]))
+        objs = []
+        for kind, nm in shape:
+            if kind == "d":
+                i, j = idx[nm[0]], idx[nm[1]]
+                vc.assume(znot(range_disjoint(i, j)))     # such a delta does not exist
+                objs.append(delta_struct(i, j))
+            else:
+                objs.append(tensor_v(kind, [idx[c] for c in nm]))
+        mode = vc.choose(3, "targets")
+        if mode == 0:
+            given, targets = None, einstein_targets(objs)
+        else:
+            # explicit targets: all / none of the indices that the convention
+            # would sum (every explicit choice contains the single occurrences
+            # or not - both are admissible inputs)
+            ein = einstein_targets(objs)
+            targets = ein if mode == 1 else ein + [idx[letters[0]]] if not any(_same(idx[letters[0]], t) for t in ein) else ein
+            given = PList(list(targets))
+        vc.ghost["_ed"] = {"targets": targets, "objs": objs}
+        return {"expr": Struct("MulV", factors=objs), "target_idx": given}
+
+    def pre(self, vc, a):
+        if not a.get("_callsite"):
+            return []
+        # recursive call: the same target indices as this invocation
+        st = vc.ghost["_ed"]
+        got = a.get("target_idx")
+        if not isinstance(got, (PList, tuple)):
+            return [("recursion-works-with-the-same-target-indices", False)]
+        items = got.items if isinstance(got, PList) else list(got)
+        same = len(_distinct_syms(items)) == len(st["targets"]) and \
+            all(any(_same(x, t) for t in st["targets"]) for x in items)
+        return [("recursion-works-with-the-same-target-indices", same)]
+
+    def fresh_result(self, vc, a):
+        return Struct("Evaluated", of=a["expr"])
+
+    def post(self, vc, a, result):
+        st = vc.ghost["_ed"]
+        ok = isinstance(result, Struct) and result.cls in ("MulV", "Evaluated") or result == 0
+        return [("returns-the-(partly)-evaluated-product", bool(ok))]
